@@ -397,7 +397,9 @@ func tryConcreteReplay(eng *Engine, rf *ReplayFile, r *OblResult, rep *FuncRepor
 
 // tryWitness: hand-written witness builders under /verif/witness/<pkg>/ turn the input class named by
 // an obligation into concrete inputs for the real code. Header lines of the form
-//   // obligation: <prefix of Fn::name> => <label>
+//
+//	// obligation: <prefix of Fn::name> => <label>
+//
 // bind obligations to labelled cases; the case is confirmed when the test prints
 // "GOCV-PANIC <label>" or "GOCV-FAIL <label>".
 func tryWitness(rf *ReplayFile, r *OblResult, rep *FuncReport, dir string) {
